@@ -203,9 +203,126 @@ func (m *monC16) Finish(rc *RunCtx) {
 	rc.Res.NonTrivial = rc.Res.Days > 30 && (sc.AutoSow || sc.AutoHarvest || sc.AutoIrr || sc.AutoFert) && len(sow) > 0
 }
 
+// ------------------------------------------------------------------------------------------------------------------
+// tight schedules around OBSERVED events: a probe run of the scenario finds the day on which the weather / maturity
+// trigger harvests the first crop; the scenario is then rewritten so that the latest harvest date of that crop lies
+// 0-2 days after that day and the following crop has a FIXED sowing date 1-3 days after the latest harvest date.
+// The rewritten scenario is an ordinary valid scenario of the property's quantifier (the sowing date lies after the
+// latest harvest date of the preceding crop); it is judged by the same oracle as every other case.
+// ------------------------------------------------------------------------------------------------------------------
+
+type monHarvestProbe struct {
+	akfPre   int
+	harvests [][2]int // (day, rotation index harvested)
+}
+
+func (m *monHarvestProbe) Event(ev *hermes.VerifEvent, rc *RunCtx) {
+	switch ev.Site {
+	case "pre_nitro":
+		m.akfPre = ev.G.AKF.Index
+	case "post_nitro":
+		if ev.Subd == 1 && ev.G.AKF.Index != m.akfPre {
+			m.harvests = append(m.harvests, [2]int{ev.Zeit, m.akfPre})
+			if len(m.harvests) >= 2 {
+				panic(abortRun{"probe done"})
+			}
+		}
+	}
+}
+func (m *monHarvestProbe) Finish(rc *RunCtx) {}
+
+// c16Scenario: the generated scenario of a C16 case; every fourth case is tightened around its observed first harvest
+func c16Scenario(seed uint64, idx int) *Scenario {
+	sc := GenScenario("C16", seed, idx)
+	if idx%4 != 3 || !sc.AutoHarvest || len(sc.Rotation) < 3 {
+		return sc
+	}
+	e1, e2 := &sc.Rotation[1], &sc.Rotation[2]
+	r1, r2 := sc.AutoRows[e1.Crop], sc.AutoRows[e2.Crop]
+	if r1 == nil || r2 == nil || e1.Crop == e2.Crop || e2.Sow.Zeit() >= sc.End.Zeit()-30 {
+		return sc
+	}
+	for i := 2; i < len(sc.Rotation); i++ {
+		if sc.Rotation[i].Crop == e1.Crop && sc.Rotation[i].WinOpen.Zeit() <= sc.End.Zeit() {
+			return sc // the table row of the first crop also governs a later crop of the run
+		}
+	}
+	for i := 3; i < len(sc.Rotation); i++ {
+		if sc.Rotation[i].Crop == e2.Crop && sc.Rotation[i].WinOpen.Zeit() <= sc.End.Zeit() && sc.AutoSow {
+			return sc
+		}
+	}
+	r := NewRng(mix(mix(seed, uint64(idx)), 1616))
+	// the following crop gets a fixed sowing date (table row with sowing window start 0000) when sowing is automatic
+	if sc.AutoSow {
+		r2.FixedSowing = true
+		sc.rebuildAutoman()
+	}
+	probe := &monHarvestProbe{}
+	runScenario(sc, []Monitor{probe}, "")
+	t1 := 0
+	for _, h := range probe.harvests {
+		if h[1] == 1 || (t1 == 0 && h[0] > e1.Sow.Zeit()) {
+			t1 = h[0]
+			break
+		}
+	}
+	if t1 == 0 || t1 <= e1.Sow.Zeit()+20 || t1 > e1.LatestHarv.Zeit() {
+		return sc
+	}
+	latest := DateOfZeit(t1 + r.Range(0, 2))
+	if latest.Zeit() > e1.LatestHarv.Zeit() {
+		latest = e1.LatestHarv
+	}
+	if latest.M == 2 && latest.D == 29 {
+		return sc
+	}
+	sow2 := latest.AddDays(r.Range(1, 3))
+	if sow2.Zeit()+45 > e2.LatestHarv.Zeit() || sow2.Zeit() >= e2.Harvest.Zeit()-40 || sow2.Zeit() >= sc.End.Zeit()-10 {
+		return sc
+	}
+	r1.Har2 = Date{2001, latest.M, latest.D}.DOY()
+	e1.LatestHarv = latest
+	if e1.Harvest.Zeit() > latest.Zeit() {
+		e1.Harvest = latest
+	}
+	e2.Sow = sow2
+	if e2.WinOpen.Zeit() > sow2.Zeit() {
+		e2.WinOpen = sow2
+	}
+	if e2.WinClose.Zeit() < sow2.Zeit() {
+		e2.WinClose = sow2
+	}
+	// no tillage may fall between the new sowing date and the harvest of the following crop: drop those in the old gap
+	var tl []TillEvent
+	for _, t := range sc.Till {
+		if t.D.Zeit() < e1.Sow.Zeit() || t.D.Zeit() > e2.LatestHarv.Zeit()+2 {
+			tl = append(tl, t)
+		}
+	}
+	sc.Till = tl
+	sc.rebuildAutoman()
+	sc.Tightened = true
+	return sc
+}
+
+func runC16Case(tier string, seed uint64, idx int, keepDir string) *CaseResult {
+	sc := c16Scenario(seed, idx)
+	res := runScenario(sc, simProps["C16"].monitors(), keepDir)
+	res.Sample = scenarioSample(sc)
+	if sc.Tightened {
+		if res.Cov == nil {
+			res.Cov = map[string]int64{}
+		}
+		res.Cov["cases_fixed_sowing_right_after_observed_harvest"]++
+	}
+	return res
+}
+
 func init() {
+	caseRunners["C16"] = runC16Case
 	simProps["C16"] = simProp{checkSpec{Prop: "C16", Level: "exploration", NQuick: 2000, NThorough: 40000,
-		Rule:   "cases = generated rotations of the shipped annual crops whose sowing windows open after the latest harvest date of the preceding crop, random automatic-management tables (windows, triggers, stage windows, daily maxima, N demands, organic fertiliser), the four automation switches drawn independently (20% of the cases fully manual), all weather; sowing / harvest days from the management event log are checked against windows, latest dates and fixed dates, every automatic irrigation against stage window and daily maximum at the moment it is applied, automatic N applications for sign; non-trivial = >30 days, at least one switch on and at least one sowing",
-		Floors: []string{"sowings_triggered_inside_window", "sowings_forced_at_window_end", "sowings_fixed_date", "harvests_triggered_before_latest_date", "harvests_forced_at_latest_date", "harvests_fixed_date", "auto_irrigations", "auto_n_applications", "crop_records_checked"}},
+		Rule:   "cases = generated rotations of the shipped annual crops whose sowing windows open after the latest harvest date of the preceding crop, random automatic-management tables (windows, triggers, stage windows, daily maxima, N demands, organic fertiliser), the four automation switches drawn independently (20% of the cases fully manual), all weather; sowing / harvest days from the management event log are checked against windows, latest dates and fixed dates, every automatic irrigation against stage window and daily maximum at the moment it is applied, automatic N applications for sign; every fourth case is first run as a probe and then rewritten around what was observed: the latest harvest date of the first crop 0-2 days after the day the trigger harvested it and a fixed sowing date of the following crop 1-3 days after that latest date; non-trivial = >30 days, at least one switch on and at least one sowing",
+		Floors: []string{"sowings_triggered_inside_window", "sowings_forced_at_window_end", "sowings_fixed_date", "harvests_triggered_before_latest_date", "harvests_forced_at_latest_date", "harvests_fixed_date", "auto_irrigations", "auto_n_applications", "crop_records_checked", "cases_fixed_sowing_right_after_observed_harvest"}},
 		func() []Monitor { return []Monitor{&monC16{}} }}
 }
